@@ -106,6 +106,9 @@ impl CaseSpace for Timing {
     fn name(&self) -> String {
         "paired-timing".to_string()
     }
+    fn seeded(&self) -> bool {
+        true
+    }
     fn total(&self) -> usize {
         self.cases.len()
     }
@@ -286,6 +289,9 @@ impl CaseSpace for Repeated {
     fn name(&self) -> String {
         "abandoned-then-repeated".to_string()
     }
+    fn seeded(&self) -> bool {
+        true
+    }
     fn total(&self) -> usize {
         3 * 4 * R_DELAYS.len() * R_GAPS.len() * 2
     }
@@ -440,6 +446,9 @@ const REPLY_VARIANTS: usize = 7; // ideal, unexpected objects, IIN2 error, NEED_
 impl CaseSpace for Replies {
     fn name(&self) -> String {
         "scripted-replies".to_string()
+    }
+    fn seeded(&self) -> bool {
+        true
     }
     fn total(&self) -> usize {
         3 * 2 * REPLY_VARIANTS
